@@ -88,7 +88,9 @@ class Reader(typing.Generic[parsmod.Source, parsmod.Feature, laymod.Native], met
                 # here we would go into augmentation mode - when implemented
                 raise forml.MissingError('Augmentation not supported - please provide all features')
             data = entry.data.take_columns(indices) if indices else entry.data
-            return self._cast(statement.schema, entry.schema, data)
+            fields = tuple(entry.schema)
+            actual = tuple(fields[i] for i in indices) if indices else entry.schema
+            return self._cast(statement.schema, actual, data)
 
         parsed = self._parse_statement(statement)
         LOGGER.debug('Starting ETL read using: %s', parsed)
